@@ -67,6 +67,10 @@ let run_func (func : string) (plain : Sx.t list) (avs : argv list) : outcome =
   let cs = contents avs in
   let valid = List.for_all valid_b cs in
   let unsup = if List.exists (fun c -> has_union (type_of c)) cs then "union" else "" in
+  (* is_none is specified through a union at the top (levels counted on the values): PySpec.spec_is_none_union *)
+  let unsup = (match func, cs with
+      | "is_none", [c] -> (match type_of c with TUnion ts when not (List.exists has_union ts) -> "" | _ -> unsup)
+      | _ -> unsup) in
   let mk ?(extra = no_extra) spec = { spec; valid_inputs = valid; unsupported = unsup; extra_check = extra } in
   let one k = with_arrs avs (function [(t, vs)] -> obs_of_vres (k t vs) | _ -> OBad "arity") in
   match func, plain with
